@@ -27,6 +27,7 @@ type Case struct {
 	Harness string     `json:"harness"`
 	Params  []int64    `json:"params"`
 	Inputs  []inputVal `json:"inputs"`
+	Repeat  int        `json:"repeat"` // > 0: run up to this many times, report the first run that does not end "ok"
 }
 
 type Result struct {
@@ -202,7 +203,11 @@ func RunReplay(t *testing.T, harnesses map[string]any) {
 		if !ok {
 			continue
 		}
-		results = append(results, runOne(c, h))
+		r := runOne(c, h)
+		for i := 1; i < c.Repeat && r.Outcome == "ok"; i++ {
+			r = runOne(c, h)
+		}
+		results = append(results, r)
 	}
 	b, _ := json.Marshal(results)
 	if err := os.WriteFile(out, b, 0o644); err != nil {
